@@ -4,19 +4,19 @@ sys.path[:0] = ['/verif']
 
 TECH = 'solver-based bounded symbolic execution of the real code (CrossHair 0.0.110 + z3 5.1)'
 TEXT = {
-    'C01': ('Real Scheduler._process_current_schedule / Cluster.allocate_task_to_cluster / Task.do_work under real SimPy from every pool vector of a 3-machine cluster with solver-chosen adversarial proposals (busy, duplicated, reserved, foreign machines); one round of each shipped algorithm on a symbolic plan; whole-simulation runs with an adversarial algorithm.',
+    'C01': ('Real Scheduler._process_current_schedule / Cluster.allocate_task_to_cluster / Task.do_work under real SimPy from every pool vector of a 3-machine cluster with solver-chosen adversarial proposals (busy, duplicated, reserved, foreign machines); one round of each shipped algorithm on a symbolic plan; whole-simulation runs with an adversarial algorithm; after the adversarial proposals an honest ingest takes every machine still listed as available.',
             'Bounds: 3 machines, 2 proposals per round, 2 concurrent workflows, horizon <= 60 steps. "Executing" = between entry and exit of Task.do_work in SimPy event order.'),
     'C02': ('Every operation history up to depth 3 (quick) / 4 (thorough) on a 3-machine real Cluster under real SimPy, plus one operation from every pool vector reachable by prelude (inductive step) and the invariant after every step of whole simulations; each shard decided by path-tree exhaustion.',
             'Bounds: 3 machines, 2 reservation names, task duration 2. num_provisioned_obs is asserted only on histories that follow the provisioning protocol.'),
-    'C03': ('Engine B proves start == max(allocation time, predecessor finish + volume/bandwidth) for <= 3 cross-machine predecessors over unbounded integers from the current source of Task._wait_for_transfer/do_work; CrossHair decides _find_pred_allocations, a case-split box of finish times x volumes on the real do_work (Engine-A companion of the Engine-B result) and one round of each shipped algorithm on symbolic DAG/finished maps; whole simulations (incl. volumes that are not multiples of the bandwidth) check the task table.',
+    'C03': ('Engine B proves start == max(allocation time, predecessor finish + volume/bandwidth) for <= 3 cross-machine predecessors over unbounded integers from the current source of Task._wait_for_transfer/do_work; CrossHair decides _find_pred_allocations, a case-split box of finish times x volumes on the real do_work (Engine-A companion of the Engine-B result) and one round of each shipped algorithm on symbolic DAG/finished maps; whole simulations (incl. volumes that are not multiples of the bandwidth, one predecessor feeding successors over edges of different volume) check the task table against the scenario graph, not against the plan under test.',
             'Exact under bandwidth | volume (lemma L3, solver-checked to 2^8/2^11 bits); rational reading otherwise. DAGs <= 3 tasks in whole-simulation runs.'),
-    'C04': ('Whole bounded simulations of the real actors (real SimPy, real networkx, pandas stub) under Batch/Queue/adversarial algorithms and injected delays; on return: every observation observed once, every ingest and workflow task activated exactly once, quiescent state, task table has one row per executed task.',
+    'C04': ('Whole bounded simulations of the real actors (real SimPy, real networkx, pandas stub) under Batch/Queue/adversarial algorithms and injected delays; on return: every observation observed once, every ingest and workflow task activated exactly once, quiescent state, task table has one row per executed task; a run under a shipped algorithm that is aborted by an exception is reported as well.',
             'Bounds: <= 3 observations, <= 3 tasks, starts 0..4, durations 1..3; time-like inputs are case-split by the solver and each case runs natively.'),
     'C05': ('Unit harness "a transient shortage only postpones" (machines busy / ingest limit used up for k steps, buffer sizes unbounded symbolic); whole simulations with a step cap equal to the serial bound of the statement: unbounded symbolic data rates/capacities (traced end to end) and case-split timing grids with machine/ingest-limit shortage, three simultaneous starts and non-topological node labels; one round of the greedy algorithm on symbolic states; any exception or hitting the cap is a violation tagged by site / blocked-state signature.',
             'Two open known findings (tiering strands an observation in the cold buffer). Symbolic-size shards are bug-hunting only unless they exhaust (reported per shard). Horizon <= ~80 steps.'),
     'C06': ('Engine B: Task.do_work/calculate_runtime executed symbolically from their current source into z3 integer terms; runtime formula, at-least-one, exit instant, flagging and monotonicity proved over unbounded integers (z3, cross-checked by cvc5); also through the scheduler path (update_allocation then do_work); float division cut by lemma L1 (QF_BVFP, checked each run); CrossHair end-to-end harnesses with the real cluster poll, task table and scheduler path; whole simulations check the recorded runtime of every task.',
             'L1 solver-checked for operands < 2^8 (quick) / 2^11 (thorough), argued to 2^26, not claimed above.'),
-    'C07': ('Unit harnesses with unbounded symbolic rates/capacities: ingest stream deposits rate per step for duration steps, removal frees exactly the data once, admission predicate equals the room oracle (including data still to arrive), two overlapping ingests through the real admission path, the data of a finished workflow freed while another observation is mid-ingest; whole simulations check both tiers after every step.',
+    'C07': ('Unit harnesses with unbounded symbolic rates/capacities: ingest stream deposits rate per step for duration steps, removal frees exactly the data once, admission predicate equals the room oracle (including data still to arrive), two overlapping ingests through the real admission path, the data of a finished workflow freed while another observation is mid-ingest, two Buffer objects built in one interpreter share nothing; whole simulations check both tiers after every step.',
             'Bounds: durations 1..4, two overlapping observations. Refusal paths that format operands into messages run over small case-split ranges.'),
     'C08': ('One timestep of the real Telescope/Scheduler/Cluster/Buffer from symbolic load states (pools by prelude incl. machines reserved-idle for a batch workflow, arrays in use, unbounded buffer space/rates, two observations due); every started observation is checked against the state after earlier starts of the same step; on-time clause for an idle system; whole simulations check array/ingest limits and ingest hold times.',
             'Bounds: 3 machines, 2 observations per step; quick tier varies array and machine resources in separate shards.'),
@@ -32,11 +32,11 @@ TEXT = {
             'Bounds as C04.'),
     'C14': ('Real Planner.run -> BatchPlanning.generate_plan (real networkx) on symbolic DAGs: adjacency bits, compute, optional data demand and edge volumes are solver variables, node labels permuted; plan compared with the graph; predecessor/successor queries mutually inverse.',
             'Bounds: <= 3 nodes (quick) / 4 nodes all permutations (thorough); unbounded integer attributes.'),
-    'C15': ('Real DelayModel.generate_delay with numpy replaced by a generator stub whose draws are solver variables: no exception, never shorter, unchanged for degree none / prob 0 / runtime 0, deterministic per seed; real Task.do_work + Scheduler._update_current_plan for the flag and DELAYED status.',
+    'C15': ('Real DelayModel.generate_delay with numpy replaced by a generator stub whose draws are solver variables: no exception, never shorter, unchanged for degree none / prob 0 / runtime 0, deterministic per seed, a second seed used afterwards draws from its own stream; real Task.do_work + Scheduler._update_current_plan for the flag and DELAYED status; whole simulations with injected delay vectors check at every step that the delayed report persists.',
             "numpy's distributions are replaced by contract E7 (seeded streams deterministic, unseeded fresh, normal(mu,0)=mu, poisson(0)=0). Runtimes 0..6."),
-    'C16': ('CrossHair on the real Config.parse_cluster_config / parse_buffer_config with a symbolic unit (string or integer) and unbounded rates; Engine B slices of the three multiplier ladders and of the Observation(...) arguments in parse_instrument_config; derived invariants as two-copy queries.',
+    'C16': ('CrossHair on the real Config.parse_cluster_config / parse_buffer_config with a symbolic unit (string or integer) and unbounded rates, every section parsed twice from one Config object; Engine B slices of the three multiplier ladders and of the Observation(...) arguments in parse_instrument_config; derived invariants as two-copy queries.',
             'Whole multiples of the unit (lemma L3); round() of integer rates.'),
-    'C17': ('Real DynamicSchedulingFromPlan.run on symbolic cluster states and static plans (stub for the absent SHADOW planner); whole simulations under contention check the executed machine of every task against its plan.',
+    'C17': ('Real DynamicSchedulingFromPlan.run on symbolic cluster states and static plans (stub for the absent SHADOW planner); whole simulations under contention check the executed machine of every task against its plan (machines of unequal speed and bandwidth in no particular order).',
             'Static planner output is arbitrary (stub E6), not HEFT specifically.'),
     'C18': ('Real Buffer.move_hot_to_cold / move_cold_to_hot as SimPy processes with unbounded symbolic size, both rates, capacities and other resident data: per-step conservation, slower rate, ceil(size/rate) steps, exactly one tier afterwards, refused move leaves everything unchanged, round trip.',
             'Moves of <= 3 transfer steps (quick) / 6 (thorough).'),
